@@ -69,8 +69,11 @@ def scram_cases(rng, thorough):
                         a = AuthScram(authid=authid, password=pw)
                         cnonce = a.authextra["nonce"]
                         snonce = cnonce + base64.b64encode(os.urandom(8)).decode()
-                        cb = ""
+                        # the channel binding the server names in its challenge enters the signed AuthMessage (c=...)
+                        cb = rng.choice(["", "", "tls-unique", "dGxzLXVuaXF1ZQ==", "biws"])
                         extra = {"nonce": snonce, "kdf": kdf, "salt": salt, "iterations": it}
+                        if cb or rng.random() < 0.3:
+                            extra["channel_binding"] = cb
                         if kdf == "argon2id-13":
                             extra["memory"] = mem
                         proof = a.on_challenge(FakeSession(), types.Challenge("scram", extra))
@@ -98,7 +101,7 @@ def scram_cases(rng, thorough):
                         chg = {"authid": dict(authid="mallory"), "cnonce": dict(cnonce="AAAA" + cnonce[4:]), "snonce": dict(snonce=snonce + "x"),
                                "salt": dict(salt=base64.b64encode(b"othersalt").decode()), "it": dict(it=it + 1),
                                "kdf": dict(kdf="argon2id-13" if kdf == "pbkdf2" else "pbkdf2"), "mem": dict(mem=mem * 2),
-                               "cb": dict(cb="tls-unique"), "pw": dict(pw=pw + "x")}
+                               "cb": dict(cb="tls-unique" if cb != "tls-unique" else ""), "pw": dict(pw=pw + "x")}
                         if alter == "mem" and kdf == "pbkdf2":
                             alter_eff = "none-mem"      # memory is not an input of PBKDF2: same signature expected
                         else:
